@@ -121,6 +121,7 @@ Ltac ks_expose :=
   cbn [map sumR nth];
   unfold Q2R; cbn [Qnum Qden].
 
-Ltac ks_sum_bounds S := unfold S; ks_expose; split; interval.
-Ltac ks_closeS S := clearbody S; ks_expose; interval.
+Ltac ks_sum_bounds S :=
+  unfold S; ks_expose; split; first [ interval | interval with (i_prec 100) ].
+Ltac ks_closeS S := clearbody S; ks_expose; first [ interval | interval with (i_prec 100) ].
 Ltac ks_close := ks_expose; first [ interval | interval with (i_prec 90) ].
